@@ -250,7 +250,11 @@ func splitFlagsFromArgs(all []string) (flags, args []string) {
 		if !strings.HasPrefix(arg, "-") {
 			return all[:i:i], all[i:]
 		}
-		if booleanFlags[arg] || strings.Contains(arg, "=") {
+		name := arg
+		if strings.HasPrefix(name, "--") {
+			name = name[1:] // "--name" to "-name", like the flag package does
+		}
+		if booleanFlags[name] || strings.Contains(arg, "=") {
 			// Either "-bool" or "-name=value".
 			continue
 		}
